@@ -237,6 +237,35 @@ def snapshot(node):
     return ("D", sorted(node.attrs.keys()), np.array(d).tobytes())
 
 
+def run_table_ds(eng, p):
+    """the route of Export.hdf5(tables=True): the real store_table is handed
+    the source table as an HDF5 dataset; its columns and its HDF5 attributes
+    must arrive in the output file"""
+    src, vals = build_source(eng, p)
+    npx = SymNP()
+    Wr = sym_writer(np=npx, h5py=symh5)
+    dst = symh5.File("dst.rtdc", "w")
+    hw = Wr.__new__(Wr)
+    hw.mode, hw.compression_kwargs, hw.h5file = "append", {}, dst
+    hw._group_sizes, hw.owns_path, hw.path = {}, False, "dst.rtdc"
+    from harness.c20 import _init_attrs
+    for kk, vv in _init_attrs().items():
+        setattr(hw, kk, vv)
+    tab = src["tables"]["tab"]
+    with quiet():
+        hw.store_table("tab", tab)
+    eng.reach()
+    out = dst["tables"]["tab"]
+    missing = [k for k in tab.attrs.keys() if k not in out.attrs or
+               out.attrs[k] != tab.attrs[k]]
+    eng.prove(z3.BoolVal(not missing),
+              "store_table(h5 dataset): table attributes carried over",
+              info={"missing": missing})
+    eng.prove(z3.BoolVal(sorted(out.dtype.names) == sorted(tab.dtype.names)),
+              "store_table(h5 dataset): columns carried over")
+    return "ok"
+
+
 def run_tree(eng, p):
     src, vals = build_source(eng, p)
     before = snapshot(src)
@@ -494,7 +523,8 @@ def run_varlog(eng, p):
 
 def run_case(name, params):
     eng = Engine(timeout_ms=20000)
-    fn = {"tree": run_tree, "varlog": run_varlog, "cli": run_cli}[
+    fn = {"tree": run_tree, "varlog": run_varlog, "cli": run_cli,
+          "table-ds": run_table_ds}[
         params["kind"]]
     eng.explore(lambda e: fn(e, params))
     return eng.stats()
@@ -520,6 +550,8 @@ def cases(tier, seed):
         pp = dict(base)
         pp.update(v)
         out.append(("tree %s" % (v or "base"), pp))
+    out.append(("store_table from an HDF5 dataset",
+                dict(base, kind="table-ds")))
     for n in (1, 2):
         out.append(("varlog n=%d" % n, dict(kind="varlog", n=n)))
     for task in ("repack", "compress"):
@@ -540,6 +572,35 @@ def replay(case, params, v):
     fails = []
     with tempfile.TemporaryDirectory(prefix="verif_c08_") as td, quiet():
         ps, pd = os.path.join(td, "s.rtdc"), os.path.join(td, "d.rtdc")
+        if p["kind"] == "table-ds":
+            RTDCWriter = real(W, "RTDCWriter")
+            with h5py.File(ps, "w") as h:
+                t = h.require_group("tables").create_dataset(
+                    "tab", data=np.rec.array(
+                        [(1., 3.), (2., 4.)],
+                        dtype=[("a", float), ("b", float)]))
+                t.attrs["hello"] = "world"
+                t.attrs["COLOR_a"] = "#ff0000"
+            with h5py.File(ps, "r") as h, \
+                    RTDCWriter(pd, mode="reset") as hw:
+                hw.store_table("tab", h["tables/tab"])
+            with h5py.File(ps, "r") as a, h5py.File(pd, "r") as b:
+                ta, tb = a["tables/tab"], b["tables/tab"]
+                for k in ta.attrs:
+                    if k not in tb.attrs or tb.attrs[k] != ta.attrs[k]:
+                        fails.append("store_table(<HDF5 dataset>): table "
+                                     "attribute %r is not carried over" % k)
+                if ta.dtype.names != tb.dtype.names or not all(
+                        np.array_equal(ta[n][:], tb[n][:])
+                        for n in ta.dtype.names):
+                    fails.append("store_table(<HDF5 dataset>): columns "
+                                 "differ")
+            if not fails:
+                return {"reproduced": False, "key": "not-reproduced",
+                        "detail": "table attributes arrive"}
+            return {"reproduced": True,
+                    "key": "store_table|h5-dataset|attributes-lost",
+                    "detail": fails[0]}
         if p["kind"] == "cli":
             import dclab.cli as cli
             import dclab.rtdc_dataset.writer as Wm
